@@ -363,7 +363,9 @@ fn source_of(p: &Value) -> String {
         return s.to_string();
     }
     // "pad": leading blank lines / spaces (layout twins: same length, same text, other line numbers)
-    format!("{}{}", p["pad"].as_str().unwrap_or(""), prog::render(&prog::block_from_json(&p["prog"])))
+    // "reads": the script starts by echoing that many lines of standard input (sessions with a stdin)
+    let reads = "shout(read_line(\"\"))\n".repeat(p["reads"].as_u64().unwrap_or(0) as usize);
+    format!("{}{reads}{}", p["pad"].as_str().unwrap_or(""), prog::render(&prog::block_from_json(&p["prog"])))
 }
 
 thread_local! {
@@ -409,19 +411,48 @@ impl C14 {
         // the references first, each program alone, so that the session's runs follow one another
         // with nothing in between (as in a playground instance)
         let mut alone_of: Vec<Option<Shown>> = vec![None; progs.len()];
-        for &pi in &order {
-            if alone_of[pi].is_none() {
-                stage(&format!("alone {pi}"));
-                ROOMY_REFERENCE.with(|c| c.set(roomy(&progs[pi]["plant"])));
-                alone_of[pi] = Some(isolated_run(&source_of(&progs[pi]), "playground.ns", progs[pi]["plant"] == "trap"));
-                ROOMY_REFERENCE.with(|c| c.set(false));
+        // a session with a standard input: one stream for the whole session, every script starts by
+        // echoing some lines of it. "Alone" then means: alone at the point of the stream the script
+        // finds when its turn comes, so the references are per run.
+        let has_stdin = case["stdin"].is_object();
+        let stdin_text = if has_stdin { crate::c17::text_of(&case["stdin"]) } else { vec![] };
+        let mut alone_of_run: Vec<Shown> = vec![];
+        if has_stdin {
+            let after_line: Vec<usize> = stdin_text.iter().enumerate().filter(|(_, b)| **b == b'\n').map(|(p, _)| p + 1).collect();
+            let offset_of = |n: usize| if n == 0 { 0 } else { after_line.get(n - 1).copied().unwrap_or(stdin_text.len()) };
+            let mut consumed = 0usize;
+            for (k, &pi) in order.iter().enumerate() {
+                stage(&format!("alone run {k}"));
+                crate::c17::drain_carry_over();
+                fake_libc::install_stdin(fake_libc::StdinSim { data: stdin_text[offset_of(consumed)..].to_vec(), ..fake_libc::StdinSim::default() });
+                let alone = isolated_run(&source_of(&progs[pi]), "playground.ns", progs[pi]["plant"] == "trap");
+                fake_libc::take_stdin();
+                crate::c17::drain_carry_over();
+                // the echoing calls come first in the script: they ran unless it was not accepted at all
+                if alone.ending != "parse-error" && alone.ending != "static-error" && progs[pi]["src"].is_null() {
+                    consumed += progs[pi]["reads"].as_u64().unwrap_or(0) as usize;
+                }
+                alone_of_run.push(alone);
+            }
+            res.count("sessions_with_a_standard_input", 1);
+            res.count("stdin_lines_consumed_in_sessions", consumed as u64);
+            let plan: Vec<usize> = case["stdin"]["plan"].as_array().map(|a| a.iter().map(|x| x.as_u64().unwrap() as usize).collect()).unwrap_or_default();
+            fake_libc::install_stdin(fake_libc::StdinSim { data: stdin_text.clone(), plan, ..fake_libc::StdinSim::default() });
+        } else {
+            for &pi in &order {
+                if alone_of[pi].is_none() {
+                    stage(&format!("alone {pi}"));
+                    ROOMY_REFERENCE.with(|c| c.set(roomy(&progs[pi]["plant"])));
+                    alone_of[pi] = Some(isolated_run(&source_of(&progs[pi]), "playground.ns", progs[pi]["plant"] == "trap"));
+                    ROOMY_REFERENCE.with(|c| c.set(false));
+                }
             }
         }
         // the embedder's glue hands every run its source in the same reused block of memory
         let mut session_src: Vec<u8> = Vec::with_capacity(1 << 20);
         let mut prev_len = usize::MAX;
         for (k, &pi) in order.iter().enumerate() {
-            let alone = alone_of[pi].clone().unwrap();
+            let alone = if has_stdin { alone_of_run[k].clone() } else { alone_of[pi].clone().unwrap() };
             session_src.clear();
             session_src.extend_from_slice(source_of(&progs[pi]).as_bytes());
             let src = std::str::from_utf8(&session_src).unwrap();
@@ -434,15 +465,25 @@ impl C14 {
             stage("between");
             res.count(&format!("runs_ending_{}", alone.ending), 1);
             if got != alone {
+                if has_stdin {
+                    fake_libc::take_stdin();
+                    crate::c17::drain_carry_over();
+                }
                 let class = if got.ending != alone.ending { "ending-differs" } else { "output-differs" };
                 return Err((
                     class.into(),
                     format!("run {k} of the session (program {pi}): ends `{}` alone, `{}` in the session; {}", alone.ending, got.ending, first_diff(&got.text, &alone.text)),
                 ));
             }
-            if let Some(prev) = &seen[pi] {
+            if let Some(prev) = &seen[pi]
+                && !(has_stdin && progs[pi]["reads"].as_u64().unwrap_or(0) > 0)
+            {
                 res.count("repeated_programs_compared", 1);
                 if *prev != got {
+                    if has_stdin {
+                        fake_libc::take_stdin();
+                        crate::c17::drain_carry_over();
+                    }
                     return Err(("repeat-differs".into(), format!("program {pi} gave a different result the second time: {}", first_diff(&got.text, &prev.text))));
                 }
             }
@@ -454,6 +495,10 @@ impl C14 {
                 let n = scribble_globals(b as u8);
                 res.count("fault_bytes_scribbled_between_runs", n);
             }
+        }
+        if has_stdin {
+            fake_libc::take_stdin();
+            crate::c17::drain_carry_over();
         }
         let skipped = fake_libc::with_vm(|vm| std::mem::take(&mut vm.skipped_decommits)).unwrap_or(0);
         res.count("fault_decommits_turned_into_noops", skipped);
@@ -668,8 +713,26 @@ impl Engine for C14 {
                 order[at + 2] = pi;
             }
         }
+        // a quarter of the sessions have a standard input that their scripts echo from
+        let mut stdin = Value::Null;
+        if r.chance(25) {
+            let n = r.usize(0, 8);
+            let lines: Vec<Value> = (0..n).map(|_| json!({"len": r.pick(&[0usize, 1, 5, 40, 300]), "kind": r.pick(&["ascii", "two", "mixed"])})).collect();
+            let plan: Vec<usize> = match r.below(3) {
+                0 => vec![usize::MAX >> 1],
+                1 => vec![r.pick(&[1usize, 3, 7, 64])],
+                _ => (0..r.usize(1, 12)).map(|_| r.usize(1, 120)).collect(),
+            };
+            stdin = json!({"lines": lines, "final_newline": n > 0 && r.chance(50), "plan": plan});
+            for p in programs.iter_mut() {
+                // (sources given by their exact bytes stay as they are)
+                if p["src"].is_null() {
+                    p["reads"] = json!(r.below(4));
+                }
+            }
+        }
         let scribble: Vec<u64> = (0..nruns).map(|_| if r.chance(70) { r.pick(&[0u64, 0x41, 0xdd, 0xff, 0x7b]) } else { 999 }).collect();
-        json!({"kind": "session", "programs": programs, "order": order, "scribble": scribble, "wasm_like": r.chance(60)})
+        json!({"kind": "session", "programs": programs, "order": order, "scribble": scribble, "wasm_like": r.chance(60), "stdin": stdin})
     }
 
     fn execute(&self, case: &Value) -> RunResult {
